@@ -155,7 +155,12 @@ class TTElement(TTMLElement):
     if px_resolution is not None:
       tt_ctx.doc.set_px_resolution(px_resolution)
 
-    active_area = imsc_attr.ActiveAreaAttribute.extract(xml_elem)
+    try:
+      active_area = imsc_attr.ActiveAreaAttribute.extract(xml_elem)
+    except ValueError as e:
+      # components that are not lengths, or that are outside of the root container
+      LOGGER.error("Invalid ittp:activeArea on tt: %s", e)
+      active_area = None
 
     if active_area is not None:
       tt_ctx.doc.set_active_area(active_area)
